@@ -2365,12 +2365,31 @@ package main
 // registration afterwards makes it callable under its package-qualified name.
 // ---------------------------------------------------------------------------------------------
 
-//@ func mightParseIdList
-//@   trusted
+//@ func parseIdList
+//@   props C03 C16
+//@   requires live: live(ps)
 //@   panics may
-//@   ensures live: live(ps) ==> live(result.E0) && samebuf(result.E0, ps) && result.E0.tkz.current.begin >= ps.tkz.current.begin
+//@   ensures live: live(result.E0) && samebuf(result.E0, ps)
 //@   ensures frame: result.E0.scope == ps.scope && sameoff(result.E0.offsideCol, ps.offsideCol)
-//@   note abstract: an optional <T, U> list of type-parameter names
+//@   ensures progress: result.E0.tkz.current.begin > ps.tkz.current.begin
+//@   ensures starts-with-a-name: ps.tkz.current.ttype == New_TokenType_IDENTIFIER && len(result.E1) >= 1 && result.E1[0] == ps.tkz.current.stringVal
+//@   ensures ends-before-a-non-comma: result.E0.tkz.current.ttype != New_TokenType_COMMA
+//@   inline-call ParseList2
+//@   loop ParseList2/0:
+//@     invariant kept: live(ps) && samebuf(ps, old(ps)) && ps.scope == old(ps).scope && sameoff(ps.offsideCol, old(ps).offsideCol)
+//@     invariant advanced: ps.tkz.current.begin > old(ps).tkz.current.begin
+//@     invariant first: len(res) >= 1 && res[0] == old(ps).tkz.current.stringVal && old(ps).tkz.current.ttype == New_TokenType_IDENTIFIER
+//@     decreases rem(ps)
+
+// an optional <T, U> list of type-parameter names: without `<` nothing is consumed and the list is empty
+//@ func mightParseIdList
+//@   props C03 C16
+//@   requires live: live(ps)
+//@   panics may
+//@   ensures live: live(result.E0) && samebuf(result.E0, ps) && result.E0.tkz.current.begin >= ps.tkz.current.begin
+//@   ensures frame: result.E0.scope == ps.scope && sameoff(result.E0.offsideCol, ps.offsideCol)
+//@   ensures absent: ps.tkz.current.ttype != New_TokenType_LT ==> result.E0 == ps && len(result.E1) == 0
+//@   ensures present: ps.tkz.current.ttype == New_TokenType_LT ==> len(result.E1) >= 1 && result.E1[0] == adv(ps).tkz.current.stringVal && result.E0.tkz.current.begin > ps.tkz.current.begin
 
 //@ func psRegTypeVars
 //@   trusted
